@@ -33,6 +33,10 @@ func genC18(t *rapid.T) E1Case {
 					op.Sizes[k] = op.Sizes[k] % 11
 				}
 			}
+			if (op.Op == "writev" || op.Op == "ctxwritev") && rapid.IntRange(0, 5).Draw(t, "bigvec") == 0 {
+				// a vector beyond the largest pooled size class (65536): all of it is accepted, or none of it
+				op.Sizes = rapid.SampledFrom([][]int{{40000, 30000}, {30000, 10000, 30000}, {65536, 1}, {20000, 20000, 20000, 20000}}).Draw(t, "bigsizes")
+			}
 			if op.Op == "ctxwrite1" || op.Op == "ctxwritev" {
 				op.Ctx = rapid.SampledFrom([]string{"", "live", "live", "cancelled", "deadline"}).Draw(t, "ctx")
 				live = live || op.Ctx == "live"
